@@ -50,9 +50,12 @@ func runRatingGrid(a *args) {
 	col.write(a.Out)
 }
 
+type keptNomen struct{ got, want, vec string }
+
 func runNomenCases(a *args) {
 	col := newCollector("nomencases", a.Prop)
 	v := versions["4.0"]
+	var kept []keptNomen
 	readTLCLines(a.In, "@N", func(raw []byte) {
 		var c struct {
 			O     []string `json:"o"`
@@ -77,6 +80,9 @@ func runNomenCases(a *args) {
 		var got string
 		p, msg := safely(func() { got = o.Nomenclature() })
 		col.count("objects built by Set", 1)
+		if !p {
+			kept = append(kept, keptNomen{got, c.R, vec}) // the very string returned, not a copy
+		}
 		if p || got != c.R {
 			col.violate(Violation{Property: a.Prop, Kind: "Nomenclature differs from the groups in use", Version: "4.0", Input: map[string]interface{}{"vector": vec, "built_by": "Set"},
 				Expected: c.R, Observed: map[string]interface{}{"nomenclature": got, "panic": msg}, Replay: rep})
@@ -97,6 +103,14 @@ func runNomenCases(a *args) {
 			col.sample(map[string]interface{}{"vector": vec, "expected": c.R})
 		}
 	})
+	// a result must still read the same after all the later calls
+	for _, k := range kept {
+		col.count("results re-read after all later calls", 1)
+		if k.got != k.want {
+			col.violate(Violation{Property: a.Prop, Kind: "Nomenclature result changed after later calls", Version: "4.0", Input: map[string]interface{}{"vector": k.vec},
+				Expected: k.want, Observed: k.got})
+		}
+	}
 	col.write(a.Out)
 }
 
